@@ -7,7 +7,7 @@
 //
 // Supported statements: `x := e`, `return e`, `if c { … }` (with fall-through), expression statements (logging) are
 // skipped, `x++`.  Supported expressions: integer literals, comparisons, + - * / %, && || !, conversions int/uint64/int64/
-// uint32/… (identity: values are mathematical integers; wrap-around is NOT modelled here), `len(x)`, `bytes.Compare(a,b)`,
+// uint32/… (64-bit types: identity on mathematical integers, wrap-around at 2^64 is NOT modelled; narrower types: wrapU/wrapS), `len(x)`, `bytes.Compare(a,b)`,
 // `a.Cmp(b)` (big.Int), `x == nil` / `x != nil`, `math.MaxUint64`.  Anything else makes the definition ABSENT (the dependent
 // theorem then no longer type-checks and the check reports the broken obligation).
 package main
@@ -128,7 +128,13 @@ func (t *translator) want(l *leaf, want, s string) {
 	}
 }
 
-var convs = map[string]bool{"int": true, "int64": true, "int32": true, "uint64": true, "uint32": true, "uint": true, "float64": false}
+var convs = map[string]bool{"int": true, "int64": true, "int32": true, "uint64": true, "uint32": true, "uint": true, "float64": false,
+	"uint16": true, "uint8": true, "byte": true, "int16": true, "int8": true}
+
+// conversions to a type narrower than 64 bits WRAP (the operand may be a 64-bit quantity: a counter, a size, a length);
+// 64-bit conversions stay the identity on mathematical integers (wrap-around at 2^64 is not modelled, see DESIGN 0.4)
+var narrow = map[string]string{"uint32": "wrapU 32", "uint16": "wrapU 16", "uint8": "wrapU 8", "byte": "wrapU 8",
+	"int32": "wrapS 32", "int16": "wrapS 16", "int8": "wrapS 8"}
 
 // expr translates e; want is the expected Lean type ("Int", "Bool", "Bytes" or "" when unknown); returns (lean, type)
 func (t *translator) expr(e ast.Expr, want string) (string, string) {
@@ -211,6 +217,12 @@ func (t *translator) expr(e ast.Expr, want string) (string, string) {
 		if ok, known := convs[fn]; known && len(x.Args) == 1 {
 			if !ok {
 				t.fail("conversion %s", fn)
+			}
+			if w, isNarrow := narrow[fn]; isNarrow {
+				if _, lit := x.Args[0].(*ast.BasicLit); !lit {
+					a, _ := t.expr(x.Args[0], "Int")
+					return "(" + w + " " + a + ")", "Int"
+				}
 			}
 			return t.expr(x.Args[0], "Int")
 		}
@@ -619,6 +631,7 @@ func translateAll(repo string) string {
 	sb.WriteString("/- GENERATED by /verif/tools/extract (trans.go) from the current source of /repo — do not edit.\n")
 	sb.WriteString("   Pure leaf logic of the repository translated to Lean; SV/GenProofs.lean ties each definition to the hand-written model. -/\n")
 	sb.WriteString("import SV.Common\nnamespace SV.Gen\nopen SV\n\n")
+	sb.WriteString("/-- conversion to an unsigned integer type of `n` bits -/\ndef wrapU (n : Nat) (x : Int) : Int := x % (2 ^ n : Int)\n/-- conversion to a signed integer type of `n` bits -/\ndef wrapS (n : Nat) (x : Int) : Int := (x + (2 ^ (n - 1) : Int)) % (2 ^ n : Int) - (2 ^ (n - 1) : Int)\n")
 	sb.WriteString("/-- Go's `bytes.Compare` -/\ndef cmpBytes (a b : Bytes) : Int := if bytesLt a b then -1 else if bytesLt b a then 1 else 0\n")
 	sb.WriteString("/-- `(*big.Int).Cmp` -/\ndef cmpInt (a b : Int) : Int := if a < b then -1 else if b < a then 1 else 0\n\n")
 	var absent []string
